@@ -72,6 +72,7 @@ class SimExecutor:
         self.dup_left = cfg.dup_budget
         self.n_gets = 0
         self.n_submits = 0
+        self.done_counter = 0
 
     # ------------------------------------------------------------- plumbing
     def _transport(self, obj):
@@ -122,6 +123,8 @@ class SimExecutor:
                 return
             job["failed"] = a.exc
             job["done"] = True
+            self.done_counter += 1
+            job["done_seq"] = self.done_counter
             return
         # done
         res = self._transport(a.result)
@@ -137,6 +140,8 @@ class SimExecutor:
         if not job["done"]:
             self.first[tid] = res
             job["done"] = True
+            self.done_counter += 1
+            job["done_seq"] = self.done_counter
         # duplicate execution (work stealing / recompute of a lost result)
         if self.dup_left > 0 and self.tape.coin(0.5, "dup?"):
             self.dup_left -= 1
@@ -252,6 +257,98 @@ class SimExecutor:
                     raise HarnessError(f"{tid} started before its dependency {dt} completed")
 
 
+class StubLimit(Exception):
+    """The code under test used a part of the distributed API the stub does not provide: no claim, never an alarm."""
+
+
+def through_distributed(exc):
+    """True if the exception was raised inside the real `distributed` package (handling our stub objects)."""
+    tb = exc.__traceback__
+    while tb is not None:
+        fn = tb.tb_frame.f_code.co_filename
+        if "/distributed/" in fn:
+            return True
+        tb = tb.tb_next
+    return False
+
+
+class SimAsCompleted:
+    """distributed.as_completed over SimFutures: yields in the COMPLETION order the simulated schedule produced."""
+
+    def __init__(self, futures=None, loop=None, with_results=False, raise_errors=True):  # noqa: U100
+        self.pending = list(futures or [])
+        self.with_results = with_results
+        self.raise_errors = raise_errors
+
+    def add(self, future):
+        self.pending.append(future)
+
+    def update(self, futures):
+        self.pending.extend(futures)
+
+    def count(self):
+        return len(self.pending)
+
+    def is_empty(self):
+        return not self.pending
+
+    def __iter__(self):
+        return self
+
+    def __next__(self):
+        if not self.pending:
+            raise StopIteration
+        ex = self.pending[0]._ex
+        ex.sched.run_until(lambda: any(f.done() for f in self.pending))
+        done = sorted((f for f in self.pending if f.done()), key=lambda f: ex.jobs[f._tid]["done_seq"])
+        f = done[0]
+        self.pending.remove(f)
+        ex.sched.probe("as_completed_yield")
+        if self.with_results:
+            return f, (f.result() if self.raise_errors else f._result_or_exception())
+        return f
+
+
+def sim_wait(fs, timeout=None, return_when="ALL_COMPLETED"):  # noqa: U100
+    import collections
+
+    fs = list(fs)
+    if fs:
+        ex = fs[0]._ex
+        if return_when == "FIRST_COMPLETED":
+            ex.sched.run_until(lambda: any(f.done() for f in fs))
+        else:
+            ex.sched.run_until(lambda: all(f.done() for f in fs))
+    DoneAndNotDone = collections.namedtuple("DoneAndNotDone", ["done", "not_done"])
+    return DoneAndNotDone({f for f in fs if f.done()}, {f for f in fs if not f.done()})
+
+
+class patched_distributed_api:
+    """While a SimClient is in use, distributed.as_completed / wait work on SimFutures."""
+
+    NAMES = {"as_completed": SimAsCompleted, "wait": sim_wait}
+
+    def __enter__(self):
+        import importlib
+
+        self.saved = []
+        for modname in ("distributed", "distributed.client", "dask.distributed"):
+            try:
+                mod = importlib.import_module(modname)
+            except Exception:  # noqa: B902
+                continue
+            for name, repl in self.NAMES.items():
+                if hasattr(mod, name):
+                    self.saved.append((mod, name, getattr(mod, name)))
+                    setattr(mod, name, repl)
+        return self
+
+    def __exit__(self, *exc):
+        for mod, name, orig in self.saved:
+            setattr(mod, name, orig)
+        return False
+
+
 class _Failed:
     def __init__(self, exc):
         self.exc = exc
@@ -262,8 +359,28 @@ class SimFuture:
         self._ex = ex
         self._tid = tid
 
+    @property
+    def key(self):
+        return self._tid
+
+    @property
+    def status(self):
+        job = self._ex.jobs[self._tid]
+        return "pending" if not job["done"] else ("error" if job["failed"] is not None else "finished")
+
     def done(self):
         return self._ex.jobs[self._tid]["done"]
+
+    def cancel(self, *a, **kw):  # noqa: U100
+        return None
+
+    def exception(self, timeout=None):  # noqa: U100
+        self._ex.sched.run_until(lambda: self._ex.jobs[self._tid]["done"])
+        return self._ex.jobs[self._tid]["failed"]
+
+    def _result_or_exception(self):
+        exc = self.exception()
+        return exc if exc is not None else self._ex.first[self._tid]
 
     def result(self, timeout=None):  # noqa: U100
         ex = self._ex
@@ -305,9 +422,28 @@ class SimClient:
                 break
         return SimFuture(ex, tid)
 
+    def map(self, fn, *iterables, **kwargs):
+        return [self.submit(fn, *args, **kwargs) for args in zip(*iterables)]
+
+    def gather(self, futures, errors="raise"):  # noqa: U100
+        if isinstance(futures, SimFuture):
+            return futures.result()
+        if isinstance(futures, (list, tuple, set)):
+            return type(futures)(self.gather(f) for f in futures)
+        if isinstance(futures, dict):
+            return {k: self.gather(v) for k, v in futures.items()}
+        return futures
+
+    def compute(self, collections, **kwargs):  # noqa: U100
+        import dask
+
+        single = not isinstance(collections, (list, tuple))
+        out = dask.compute(*([collections] if single else collections), scheduler=self._ex.get)
+        return out[0] if single else list(out)
+
     def drain(self):
         """Wait for everything (also duplicates) to finish."""
         self._ex.sched.drain()
 
 
-__all__ = ["SimExecutor", "SimClient", "SimFuture", "patched_dask_uuid", "strip_attempt"]
+__all__ = ["SimExecutor", "SimClient", "SimFuture", "patched_dask_uuid", "patched_distributed_api", "StubLimit", "through_distributed", "strip_attempt"]
